@@ -35,6 +35,18 @@ def stepHashes (cmd : String) (args : List String) : String :=
       match innerBytes f, parseKey? k, d.toNat? with
       | some f, some k, some d => facets [("ret", showNats (withDepthBytes f k d))]
       | _, _, _ => "bad-op"
+  | "h.md5", [k, d] =>
+      match parseKey? k, d.toNat? with
+      | some k, some d => facets [("ret", showNats (defaultMd5 k d))]
+      | _, _ => "bad-op"
+  | "h.sha256", [k, d] =>
+      match parseKey? k, d.toNat? with
+      | some k, some d => facets [("ret", showNats (defaultSha256 k d))]
+      | _, _ => "bad-op"
+  | "h.digest", [alg, k] =>
+      match parseKey? k with
+      | some k => facets [("ret", showHex (if alg == "md5" then md5 k.bytes else sha256 k.bytes))]
+      | none => "bad-op"
   | "h.utf8", [k] =>
       match parseKey? k with
       | some k => facets [("ret", showNats k.bytes)]
